@@ -415,7 +415,7 @@ func pickLen(r *mon.Rand, min int, pInvalid int) int {
 	if r.Intn(100) < pInvalid {
 		return all[r.Intn(len(all))]
 	}
-	return []int{min, 2 * min, 200, min + 1}[r.Intn(4)]
+	return []int{min, 2 * min, 200, min + 1 + r.Intn(48)}[r.Intn(4)]
 }
 
 func lenClass(n, min int) string {
